@@ -298,3 +298,52 @@ CHECKS["C17"] = dict(
                   _world("VHNextStep", DEPTH=2, QLEN=2, BUDGET=1, VISCFG=1, HEAD=6, must_reach=["handler-args", "fail", "end-by-stop"])]),
     assumptions=["chunk bytes: anything but > { CR LF (the COMMAND_TEXT alphabet); adjacent text chunks do not occur (lexer contract)"],
 )
+
+# ---------------------------------------------------------------- lexer / loader: C05, C08 (and the token-balance half of C20)
+_STUB_FR = {"github.com/remieven/ysgo/internal/tree.FromReader": "vStubFromReader"}
+def _lx(h, workers=8, **params):
+    mr = params.pop("must_reach", [])
+    return inst("internal/parser", h, params, workers=workers, must_reach=mr, solver="z3")
+
+_lexer_quick = [_lx("VHIndentStep", DEPTH=3, K=3, must_reach=["indent", "same", "dedent", "eof", "mixed"])]
+_lexer_thor = [_lx("VHIndentStep", DEPTH=4, K=5, workers=16, must_reach=["indent", "same", "dedent", "eof", "mixed"])]
+CHECKS["C20"]["instances"]["quick"] += _lexer_quick
+CHECKS["C20"]["instances"]["thorough"] += _lexer_thor
+CHECKS["C20"]["claim"] += (" Token balance: inductive step on the real handleNewLineToken/handleEndOfFileToken/insertToken from an arbitrary "
+                           "strictly increasing indent stack with symbolic widths: #INDENT-#DEDENT emitted equals the change of the stack depth, at most one "
+                           "INDENT or at most depth DEDENTs per NEWLINE, EOF closes exactly the open levels and comes last.")
+CHECKS["C20"]["assumptions"] += ["indent stack: depth <= DEPTH, widths symbolic in (0,1000); NEWLINE text: newline + up to K bytes each a space or a tab",
+                                 "the base lexer is replaced by harness-built tokens (real BaseLexer object, stub ATN simulator for line/column)"]
+
+CHECKS["C08"] = dict(
+    level="model_checking",
+    claim="Go-level units only. On the real indentation scanner: (1) a NEWLINE token ending a line without content (next line empty, whitespace-only, "
+          "comment-only, or end of input), with any indentation incl. mixed tabs/spaces, from every indent stack emits no INDENT/DEDENT and leaves "
+          "the stack unchanged; (2) relational: the same nesting (3 lines, levels 0..2) rendered with spaces of unit 1..3 and with tabs or spaces of "
+          "unit 1..4 gives the same INDENT/DEDENT sequence; (3) reader split: nodes of several readers behave as one script (VHNewRunner).",
+    note="Comments, CR/LF, spaces inside commands, redundant parentheses and operator spellings are resolved by the ANTLR lexer/parser tables: "
+         "outside the claim. The Go side of spellings (one token type -> one operator) is C02's mapping.",
+    instances=dict(
+        quick=[_lx("VHBlankLines", DEPTH=3, K=3, must_reach=["blank"]), _lx("VHIndentWidths", LINES=3, must_reach=["widths"]),
+               inst("root", "VHNewRunner", stubs=_STUB_FR, workers=4, must_reach=["created", "error", "several-nodes"])],
+        thorough=[_lx("VHBlankLines", DEPTH=4, K=4, workers=16, must_reach=["blank"]), _lx("VHIndentWidths", LINES=4, workers=16, must_reach=["widths"]),
+                  inst("root", "VHNewRunner", stubs=_STUB_FR, workers=4, must_reach=["created", "error", "several-nodes"])]),
+    assumptions=["tree.FromReader replaced by a contract stub under the engine (real parser in native replays)"],
+)
+CHECKS["C05"] = dict(
+    level="model_checking",
+    claim="Go-level units only. (1) NewDialogueRunner over 1..2 readers each failing, invalid, or holding 1..2 nodes, with every 1..2-byte seed: no "
+          "panic, an error exactly when a reader fails / is invalid / the seed is outside [0-9a-z]*, otherwise a runner that starts at the first "
+          "node of the first reader; (2) seed parsing for every string of N bytes: total, errs exactly outside [0-9a-z], value = base 36; "
+          "(3) the indentation scanner is total on pure indentation and refuses mixed tabs/spaces by a panic that FromReader converts to an "
+          "error. The witnesses of the repaired loader defects (empty input, lone newline, mixed indentation, missing body, <<if >>) are "
+          "replayed natively through the real lexer and parser on every run.",
+    note="Acceptance/rejection of syntax and panics inside the ANTLR runtime are not decided symbolically: FromReader is a contract stub under the "
+         "engine (returns an error, or a dialogue with >= 1 node); its recover() and error listener are exercised only by the native witnesses.",
+    instances=dict(
+        quick=[inst("root", "VHNewRunner", stubs=_STUB_FR, workers=4, must_reach=["created", "error", "several-nodes"])] +
+              [inst("internal/rng", "VHSeed", {"N": n}, workers=4, must_reach=["accepted"]) for n in (0, 1, 2, 3)] + _lexer_quick,
+        thorough=[inst("root", "VHNewRunner", stubs=_STUB_FR, workers=4, must_reach=["created", "error", "several-nodes"])] +
+                 [inst("internal/rng", "VHSeed", {"N": n}, workers=16, must_reach=["accepted"]) for n in (0, 1, 2, 3, 4, 5)] + _lexer_thor),
+    assumptions=["FromReader's contract: an error, or a dialogue with at least one node"],
+)
